@@ -304,9 +304,12 @@ def execute_plan(plan: dict, kdf_limit: int = 300, keep_events: bool = False) ->
                 for k in group:
                     prepared.append(prepare(k, ops[k]))
                 offline_now = any(ops[k].get("net") == "offline" for k in group)
+                slow_now = any(ops[k].get("net") == "slow" for k in group)
                 was_part = world.partitioned
                 if offline_now:
                     world.partitioned = True
+                if slow_now:  # the DC answers connects later than any client timeout (virtual time makes that free)
+                    world.slow_connect.add(("*", 0))
                 n_gk0 = len(dc.getkey_log)
                 n_conn0 = len(world.connect_attempts)
                 n_draw0 = len(world.entropy.ledger)
@@ -368,6 +371,7 @@ def execute_plan(plan: dict, kdf_limit: int = 300, keep_events: bool = False) ->
                             tr.ops.append(ot)
                 finally:
                     world.partitioned = was_part
+                    world.slow_connect.discard(("*", 0))
                 new_gk = dc.getkey_log[n_gk0:]
                 for ot, _mk in prepared:
                     ot.connects = len(world.connect_attempts) - n_conn0
